@@ -2,8 +2,10 @@
 use crate::engine::{Ctx, Report};
 use serde_json::Value;
 
+pub mod c01;
 pub mod c10;
 pub mod c13;
+pub mod c14;
 
 pub struct Prop {
     pub id: &'static str,
@@ -14,7 +16,9 @@ pub struct Prop {
 
 pub fn all() -> Vec<Prop> {
     vec![
+        Prop { id: "C01", run: c01::run, replay: c01::replay },
         Prop { id: "C10", run: c10::run, replay: c10::replay },
         Prop { id: "C13", run: c13::run, replay: c13::replay },
+        Prop { id: "C14", run: c14::run, replay: c14::replay },
     ]
 }
